@@ -743,10 +743,12 @@ func genC07(repo string) (out string, err error) {
 	}
 	fmt.Fprintf(&conn, "(* net/conn.go: every composite literal Conn{...} (WrapConn, Listener.Accept) *)\nDefinition conn_literals : list string :=\n  [%s].\n\n", strings.Join(lits, ";\n   "))
 
+	genC07conn(cfset, cfiles, &conn)
+
 	var b bytes.Buffer
 	b.WriteString("(* GENERATED by tools/gotrans (c07.go) from net/packet/packet.go and net/conn.go - do not edit *)\n")
 	b.WriteString("From Coq Require Import ZArith Bool List String.\n")
-	b.WriteString("From GoMC Require Import Base.GoInt Gen.Funcs Model.C07_syntax.\n")
+	b.WriteString("From GoMC Require Import Base.GoInt Gen.Funcs Model.C07_syntax Model.C07_connsyntax.\n")
 	b.WriteString("Import ListNotations.\nLocal Open Scope Z_scope.\nLocal Open Scope bool_scope.\n\n")
 	b.WriteString("(* ---- expressions, funcs.go-style ---- *)\n")
 	b.Write(c.defs.Bytes())
@@ -754,6 +756,208 @@ func genC07(repo string) (out string, err error) {
 	b.Write(skels.Bytes())
 	b.Write(conn.Bytes())
 	return b.String(), nil
+}
+
+// ---------------------------------------------------------------- net/conn.go, structured (Model/C07_connsyntax.v)
+//
+// Conn.ReadPacket / WritePacket / SetThreshold / SetCipher as lists of `cstmt`, the composite literals of type
+// Conn as lists of (field, value), the struct's field list as text.  Shapes:
+//   c.<Socket|Reader|Writer|threshold> = <value>
+//   return p.UnPack(<value>, <value>)      return p.Pack(<value>, <value>)
+// values: c.<field>, a parameter, an integer literal, cipher.StreamReader{S: v, R: v}, cipher.StreamWriter{S: v, W: v}
+// (keys in any order, exactly these keys).  Anything else fails.
+
+var c07connFields = map[string]string{"Socket": "CFSocket", "Reader": "CFReader", "Writer": "CFWriter", "threshold": "CFThreshold"}
+
+type c07connCtx struct {
+	fset   *token.FileSet
+	g      *gctx
+	recv   string
+	params map[string]bool
+}
+
+func (c *c07connCtx) fail(n ast.Node, f string, a ...any) {
+	panic(c07err{fmt.Sprintf("%s: %s", c.fset.Position(n.Pos()), fmt.Sprintf(f, a...))})
+}
+
+func (c *c07connCtx) val(e ast.Expr) string {
+	switch x := e.(type) {
+	case *ast.ParenExpr:
+		return c.val(x.X)
+	case *ast.Ident:
+		if c.params[x.Name] {
+			return "CVParam " + gq(x.Name)
+		}
+		c.fail(e, "identifier %s is not a parameter", x.Name)
+	case *ast.BasicLit:
+		if x.Kind == token.INT {
+			return "CVInt (" + x.Value + ")%Z"
+		}
+	case *ast.UnaryExpr:
+		if lit, ok := x.X.(*ast.BasicLit); ok && x.Op == token.SUB && lit.Kind == token.INT {
+			return "CVInt (-" + lit.Value + ")%Z"
+		}
+	case *ast.SelectorExpr:
+		if c07isIdent(x.X, c.recv) && c.recv != "" {
+			if f, ok := c07connFields[x.Sel.Name]; ok {
+				return "CVField " + f
+			}
+		}
+	case *ast.CompositeLit:
+		ty, _ := c.g.gx(x.Type)
+		keys := map[string]string{}
+		for _, el := range x.Elts {
+			kv, ok := el.(*ast.KeyValueExpr)
+			if !ok {
+				c.fail(el, "composite literal element without a key")
+			}
+			k, _ := c.g.gx(kv.Key)
+			if _, dup := keys[k]; dup {
+				c.fail(el, "duplicate key %s", k)
+			}
+			keys[k] = "(" + c.val(kv.Value) + ")"
+		}
+		switch {
+		case ty == "cipher.StreamReader" && len(keys) == 2 && keys["S"] != "" && keys["R"] != "":
+			return "CVStreamReader " + keys["S"] + " " + keys["R"]
+		case ty == "cipher.StreamWriter" && len(keys) == 2 && keys["S"] != "" && keys["W"] != "":
+			return "CVStreamWriter " + keys["S"] + " " + keys["W"]
+		}
+		c.fail(e, "composite literal of type %s is not a shape of Model/C07_connsyntax.v", ty)
+	}
+	t, _ := c.g.gx(e)
+	c.fail(e, "value %s (%T) is not a shape of Model/C07_connsyntax.v", t, e)
+	return ""
+}
+
+func (c *c07connCtx) stmt(s ast.Stmt) string {
+	switch x := s.(type) {
+	case *ast.AssignStmt:
+		if x.Tok == token.ASSIGN && len(x.Lhs) == 1 && len(x.Rhs) == 1 {
+			if sel, ok := x.Lhs[0].(*ast.SelectorExpr); ok && c07isIdent(sel.X, c.recv) {
+				if f, ok := c07connFields[sel.Sel.Name]; ok {
+					return "CAssign " + f + " (" + c.val(x.Rhs[0]) + ")"
+				}
+			}
+		}
+	case *ast.ReturnStmt:
+		if len(x.Results) == 1 {
+			if call, ok := x.Results[0].(*ast.CallExpr); ok && len(call.Args) == 2 && call.Ellipsis == token.NoPos {
+				if sel, ok := call.Fun.(*ast.SelectorExpr); ok && c07isIdent(sel.X, "p") && c.params["p"] {
+					switch sel.Sel.Name {
+					case "UnPack":
+						return "CReturnUnPack (" + c.val(call.Args[0]) + ") (" + c.val(call.Args[1]) + ")"
+					case "Pack":
+						return "CReturnPack (" + c.val(call.Args[0]) + ") (" + c.val(call.Args[1]) + ")"
+					}
+				}
+			}
+		}
+	}
+	c.fail(s, "statement %T is not a shape of Model/C07_connsyntax.v", s)
+	return ""
+}
+
+type c07connSpec struct{ name, params string }
+
+var c07connSpecs = []c07connSpec{
+	{"ReadPacket", "p:*pk.Packet"}, {"WritePacket", "p:pk.Packet"},
+	{"SetThreshold", "t:int"}, {"SetCipher", "ecoStream:cipher.Stream,decoStream:cipher.Stream"},
+}
+
+func genC07conn(fset *token.FileSet, files []*ast.File, out *bytes.Buffer) {
+	g := &gctx{fset: fset, vars: map[string]string{}, seen: map[string]bool{}}
+	for _, sp := range c07connSpecs {
+		fd := findFunc(files, "Conn", sp.name)
+		if fd == nil || fd.Body == nil {
+			panic(c07err{"net: method Conn." + sp.name + " not found"})
+		}
+		c := &c07connCtx{fset: fset, g: g, params: map[string]bool{}}
+		if fd.Recv == nil || len(fd.Recv.List) != 1 || len(fd.Recv.List[0].Names) != 1 {
+			c.fail(fd, "Conn.%s: receiver", sp.name)
+		}
+		if _, ok := fd.Recv.List[0].Type.(*ast.StarExpr); !ok {
+			c.fail(fd, "Conn.%s: receiver is not a pointer (assignments would be lost)", sp.name)
+		}
+		c.recv = fd.Recv.List[0].Names[0].Name
+		var ps []string
+		for _, f := range fd.Type.Params.List {
+			t, _ := g.gx(f.Type)
+			for _, n := range f.Names {
+				ps = append(ps, n.Name+":"+t)
+				c.params[n.Name] = true
+			}
+		}
+		if strings.Join(ps, ",") != sp.params {
+			c.fail(fd, "Conn.%s: parameters are (%s), expected (%s)", sp.name, strings.Join(ps, ","), sp.params)
+		}
+		var items []string
+		for _, s := range fd.Body.List {
+			items = append(items, c.stmt(s))
+		}
+		fmt.Fprintf(out, "(* net/conn.go: Conn.%s *)\nDefinition cs_%s : list cstmt :=\n  %s.\n\n", sp.name, sp.name, gblock(items, "  "))
+	}
+	// the struct and its literals
+	var fields []string
+	for _, f := range files {
+		ast.Inspect(f, func(n ast.Node) bool {
+			ts, ok := n.(*ast.TypeSpec)
+			if !ok || ts.Name.Name != "Conn" {
+				return true
+			}
+			st, ok := ts.Type.(*ast.StructType)
+			if !ok {
+				panic(c07err{"net: Conn is not a struct"})
+			}
+			for _, fl := range st.Fields.List {
+				t, _ := g.gx(fl.Type)
+				if len(fl.Names) == 0 {
+					fields = append(fields, gq(t))
+				}
+				for _, n := range fl.Names {
+					fields = append(fields, gq(n.Name+" "+t))
+				}
+			}
+			return false
+		})
+	}
+	fmt.Fprintf(out, "(* net/conn.go: type Conn struct *)\nDefinition cs_fields : list string :=\n  [%s].\n\n", strings.Join(fields, "; "))
+	var lits []string
+	for _, f := range files {
+		for _, d := range f.Decls {
+			fd, ok := d.(*ast.FuncDecl)
+			if !ok || fd.Body == nil {
+				continue
+			}
+			ast.Inspect(fd.Body, func(n ast.Node) bool {
+				cl, ok := n.(*ast.CompositeLit)
+				if !ok || !c07isIdent(cl.Type, "Conn") {
+					return true
+				}
+				// identifiers in a literal: parameters or locals of the enclosing function (the accepted / wrapped net.Conn)
+				c := &c07connCtx{fset: fset, g: g, params: map[string]bool{"conn": true}}
+				var items []string
+				for _, el := range cl.Elts {
+					kv, ok := el.(*ast.KeyValueExpr)
+					if !ok {
+						c.fail(el, "Conn literal element without a key")
+					}
+					k, _ := g.gx(kv.Key)
+					fld, ok := c07connFields[k]
+					if !ok {
+						c.fail(el, "Conn literal: unknown field %s", k)
+					}
+					items = append(items, "("+fld+", "+c.val(kv.Value)+")")
+				}
+				lits = append(lits, "(* in "+fd.Name.Name+" *) ["+strings.Join(items, "; ")+"]")
+				return true
+			})
+		}
+	}
+	if len(lits) == 0 {
+		panic(c07err{"net: no composite literal of type Conn found"})
+	}
+	fmt.Fprintf(out, "(* net/conn.go: every composite literal Conn{...} *)\nDefinition cs_literals : list (list (cfield * cval)) :=\n  [ %s ].\n\n", strings.Join(lits, ";\n    "))
 }
 
 // emitC07 is the one call main.go makes
